@@ -121,13 +121,37 @@ TARGETED = [
     [("get_linear_sequence_composition", ()), ("get_linear_sequence_composition", ()), ("get_linear_sequence_composition(w)", (1,))],
     [("get_amino_acid_fractions", ()), ("get_amino_acid_fractions", ())],
 ]
-PERTURBERS = ["bad_window", "bad_group", "bad_pH", "bad_type", "bad_alphabet", "shuffle", "bad_ppii"]
+PERTURBERS = ["bad_window", "bad_group", "bad_pH", "bad_type", "bad_alphabet", "shuffle", "bad_ppii", "plot", "compfile",
+              "bad_window", "bad_group", "bad_pH", "shuffle"]
 
 
 def perturb(obj, kind, rng):
     N = len(obj)
     if kind == "shuffle":
         obj.get_shuffled_sequence()
+        return "returned"
+    if kind == "plot":
+        # plotting entry points read the object; they must not disturb it either
+        import matplotlib.pyplot as plt
+        try:
+            which = rng.choice(["phase", "uversky", "linear"])
+            if which == "phase":
+                obj.show_phaseDiagramPlot(getFig=True)
+            elif which == "uversky":
+                obj.show_uverskyPlot(getFig=True)
+            else:
+                getattr(obj, rng.choice(["show_linearNCPR", "show_linearFCR", "show_linearSigma", "show_linearHydropathy"]))(min(N, 5), getFig=True)
+        finally:
+            plt.close("all")
+        return "returned"
+    if kind == "compfile":
+        import tempfile
+        d = tempfile.mkdtemp(prefix="lcverif_c15_")
+        try:
+            obj.write_compfile(os.path.join(d, "comp.txt"))
+        finally:
+            import shutil
+            shutil.rmtree(d, ignore_errors=True)
         return "returned"
     try:
         if kind == "bad_window":
